@@ -12,6 +12,19 @@ from .interp import Interp, mangle
 from .extract import Source, load_tables, dec
 from . import calls
 
+PAR_SPLIT = 96
+_PAR = None
+
+
+def _explore_worker(work):
+    E, finfo, c, max_paths, jobify = _PAR
+    E.trusted_used, E.contracts_used, E.bounded, E.decorators_seen = set(), set(), set(), {}
+    r = E._explore(finfo, c, list(work), max_paths, jobify)
+    r["trusted_used"], r["contracts_used"], r["bounded"] = E.trusted_used, E.contracts_used, E.bounded
+    r["decorators_seen"] = E.decorators_seen
+    return r
+
+
 BUILTIN_NAMES = {"len", "range", "enumerate", "isinstance", "issubclass", "type", "int", "bytes", "bytearray", "str",
                  "bool", "min", "max", "sorted", "list", "tuple", "dict", "getattr", "hasattr", "abs", "ord", "chr",
                  "repr", "filter", "zip", "any", "all", "print", "set", "sum", "map", "iter", "next", "open",
@@ -319,7 +332,7 @@ class Engine:
         return I.st.held.get(self.lock_key(lock), 0) > 0
 
     # ---- verification of one function
-    def verify_function(self, qualname, max_paths=4000, on_path=None):
+    def verify_function(self, qualname, max_paths=4000, on_path=None, jobify=None):
         """-> dict(obligations=[...], paths=n, unsupported=[...], ended=...)"""
         finfo = self.src.funcs.get(qualname)
         if finfo is None and "::loop#" in qualname:
@@ -336,14 +349,54 @@ class Engine:
             return dict(obligations=[], paths=0, unsupported=["no contract for %s" % qualname], finfo=finfo,
                         complete_paths=0)
         self.current_target = qualname
-        work = [[]]
+        res = self._explore(finfo, c, [[]], max_paths, jobify, split_at=PAR_SPLIT if jobify else None)
+        if res.get("pending"):
+            # many independent subtrees: explore them on a process pool (fork: the engine state is inherited)
+            import multiprocessing as mp
+            global _PAR
+            _PAR = (self, finfo, c, max_paths, jobify)
+            ctx = mp.get_context("fork")
+            chunks = res.pop("pending")
+            with ctx.Pool(min(16, len(chunks))) as pool:
+                parts = pool.map(_explore_worker, chunks, chunksize=1)
+            for p in parts:
+                res["obligations"].extend(p["obligations"])
+                res["paths"] += p["paths"]
+                res["complete_paths"] += p["complete_paths"]
+                for k, v in p["outcomes"].items():
+                    res["outcomes"][k] = res["outcomes"].get(k, 0) + v
+                for u in p["unsupported"]:
+                    if u not in res["unsupported"]:
+                        res["unsupported"].append(u)
+                self.trusted_used.update(p["trusted_used"])
+                self.contracts_used.update(p["contracts_used"])
+                self.bounded.update(p["bounded"])
+                for k, v in p["decorators_seen"].items():
+                    self.decorators_seen.setdefault(k, set()).update(v)
+            if res["paths"] > max_paths:
+                res["unsupported"].append("path limit %d exceeded in %s" % (max_paths, qualname))
+        self.current_target = None
+        unsupported, complete, outcomes = res["unsupported"], res["complete_paths"], res["outcomes"]
+        if (c.get("ensures") or c.get("cases")) and not c.get("noreturn") and complete > 0 \
+                and outcomes.get("normal", 0) == 0 and not unsupported:
+            unsupported.append("%s: no path returns normally, so no postcondition was checked (vacuous)" % qualname)
+        res["finfo"] = finfo
+        return res
+
+    def _explore(self, finfo, c, work, max_paths, jobify=None, split_at=None):
+        qualname = finfo.qualname
         obligations = []
         unsupported = []
         npaths = 0
         complete = 0
         outcomes = {}
+        pending = None
         while work:
-            prefix = work.pop()
+            if split_at and npaths >= 150 and len(work) >= split_at:
+                pending = work
+                break
+            # depth-first; after 150 paths switch to breadth-first to grow a balanced set of subtrees for the pool
+            prefix = work.pop(0) if (split_at and npaths >= 150) else work.pop()
             npaths += 1
             if npaths > max_paths:
                 unsupported.append("path limit %d exceeded in %s" % (max_paths, qualname))
@@ -366,17 +419,16 @@ class Engine:
             except RecursionError:
                 unsupported.append("%s: recursion limit" % qualname)
             for ob in st.obligations:
-                ob["path"] = npaths
+                ob["path"] = "%s" % ("".join(str(int(d)) for d in path.trace)[:60] or "-")
+                if jobify is not None and not ob.get("trivial"):
+                    ob = jobify(ob)
                 obligations.append(ob)
-            if on_path:
-                on_path(st)
             work.extend(path.alts)
-        self.current_target = None
-        if (c.get("ensures") or c.get("cases")) and not c.get("noreturn") and complete > 0 \
-                and outcomes.get("normal", 0) == 0 and not unsupported:
-            unsupported.append("%s: no path returns normally, so no postcondition was checked (vacuous)" % qualname)
-        return dict(obligations=obligations, paths=npaths, unsupported=unsupported, finfo=finfo,
-                    complete_paths=complete, outcomes=outcomes)
+        out = dict(obligations=obligations, paths=npaths, unsupported=unsupported, complete_paths=complete,
+                   outcomes=outcomes)
+        if pending:
+            out["pending"] = [[p] for p in pending]
+        return out
 
     def run_path(self, I, st, finfo, c):
         qualname = finfo.qualname
@@ -496,7 +548,8 @@ class Engine:
                 continue
             base_s, name = m.rsplit(".", 1)
             try:
-                base = self.eval_spec(I, base_s, fr, {})
+                # parameters named in a modifies clause denote the objects passed in, even if the body rebinds them
+                base = self.eval_spec(I, base_s, fr, dict(fr.entry_locals or {}))
             except (Unsupported, PyExc):
                 continue
             if isinstance(base, VRef):
